@@ -20,9 +20,12 @@
         was delivered); after the handshake the client sends A1 A2 A3 and the server B1 B2 (one
         datagram each).  r<i>@<j>: captured record i is delivered once more, alone in a datagram,
         right after emitted datagram j was handled; d<i>@<j>: same for whole datagram i.
-        -> "hs=<S><C> rounds=<n> S=<app data delivered to server> C=<...> err=<S><C> ndg=<n> nrec=<n>
-            injacc=<n> injchg=<n>"   (injacc: injected records that reached decryption;
-            injchg: injected datagrams after which hsState/flags/delivered data differ)
+        <pmtu> may be <pmtu>/<suite hex> (default suite c02f); a peer whose API call fails is closed
+        (dead), as an application would do; a peer with nothing pending that received nothing since
+        its last turn takes a timeout (flight resend through matrixDtlsGetOutdata).
+        -> "hs=<S><C> rounds=<n> S=<app data delivered to server> C=<...> err=<S><C> dead=<S><C> ndg=<n>
+            nrec=<n> injacc=<n> injchg=<n>"   (injacc: injected records the replay window accepted;
+            injchg: injected datagrams after which hsState/error flags/delivered data differ)
 */
 #define WRAP_TIME
 #include "matrixssl/matrixsslImpl.h"
@@ -173,14 +176,14 @@ static void inject_after(int j)
     for (int k = 0; k < ninj; k++) {
         if (inj[k].j != j) continue;
         blob_t *b = inj[k].isrec ? &rec[inj[k].i] : &dg[inj[k].i];
-        if (inj[k].i >= (inj[k].isrec ? nrec : ndg)) { g_fail++; continue; }
+        if (inj[k].i >= (inj[k].isrec ? nrec : ndg)) continue;      /* not captured yet: nothing to replay */
         ssl_t *s = peer[b->to];
-        int hs0 = s->hsState, fl0 = s->flags & (SSL_FLAGS_ERROR | SSL_FLAGS_CLOSED), d0 = hsdone[b->to];
+        int hs0 = s->hsState, fl0 = s->flags & (SSL_FLAGS_ERROR | SSL_FLAGS_CLOSED);
         size_t al0 = strlen(applog[b->to]);
         int before = g_count_accept;
         deliver(b->to, b->b, b->len);
         g_injacc += g_count_accept - before;
-        if (s->hsState != hs0 || (s->flags & (SSL_FLAGS_ERROR | SSL_FLAGS_CLOSED)) != fl0 || strlen(applog[b->to]) != al0 || d0 != hsdone[b->to])
+        if (s->hsState != hs0 || (s->flags & (SSL_FLAGS_ERROR | SSL_FLAGS_CLOSED)) != fl0 || strlen(applog[b->to]) != al0)
             g_injchg++;
     }
 }
